@@ -6,6 +6,9 @@ import (
 	"context"
 	"encoding/binary"
 	"io"
+	"os"
+	"strconv"
+	"strings"
 	"testing"
 	"time"
 
@@ -53,82 +56,111 @@ func c07ProbeBlank(t *testing.T, out *verifh.Out) {
 	// blank hosts on top of the same networks (they take over the networks' stream handler)
 	bd := blankhost.NewBlankHost(dh.Network())
 	bl := blankhost.NewBlankHost(lh.Network())
-	type inv struct{ lp int64 }
-	ran := make(chan inv, 8)
+	var ninv [c07U]int64
+	var hlp [c07U]int64
 	h := func(s network.Stream) {
 		var buf [9]byte
 		if _, err := io.ReadFull(s, buf[:]); err != nil {
 			s.Reset()
 			return
 		}
-		ran <- inv{c07Pid(s.Protocol())}
+		// each of the two handlers is the first registration of its case line: reg 0
+		which := int64(buf[8])
+		ninv[which]++
+		hlp[which] = c07Pid(s.Protocol())
 		var e [16]byte
 		copy(e[:8], buf[1:])
 		binary.BigEndian.PutUint32(e[12:], uint32(int32(c07Pid(s.Protocol()))))
 		s.Write(e[:])
 	}
-	bl.SetStreamHandler(c07Names[5], h)
-	bl.SetStreamHandler(c07Names[6], h)
 	ctx, cancel := context.WithTimeout(context.Background(), 10*time.Second)
 	defer cancel()
 	if err := bd.Connect(ctx, peer.AddrInfo{ID: lh.ID(), Addrs: lh.Addrs()}); err != nil {
 		t.Fatal(err)
 	}
-	use := func(s network.Stream) (ok bool, lp int64) {
-		var buf [9]byte
-		buf[8] = 1
-		s.Write(buf[:])
-		var e [16]byte
-		s.SetReadDeadline(time.Now().Add(3 * time.Second))
-		if _, err := io.ReadFull(s, e[:]); err != nil {
-			return false, -1
+	scope := func() []int64 {
+		res := make([]int64, 2*c07U)
+		for i, n := range c07Names {
+			rmD.ViewProtocol(n, func(s network.ProtocolScope) error { res[i] = int64(s.Stat().NumStreamsOutbound); return nil })
+			rmL.ViewProtocol(n, func(s network.ProtocolScope) error { res[c07U+i] = int64(s.Stat().NumStreamsInbound); return nil })
 		}
-		return true, int64(int32(binary.BigEndian.Uint32(e[12:])))
+		return res
 	}
-	stat := func(rm network.ResourceManager, p int64) (in, o int64) {
-		rm.ViewProtocol(c07Names[p], func(s network.ProtocolScope) error {
-			in, o = int64(s.Stat().NumStreamsInbound), int64(s.Stat().NumStreamsOutbound)
-			return nil
-		})
-		return
-	}
-	// 1. the listener's scope for /c07/b refuses
-	out.Cover("probe.blank.listener_scope_refuses.runs")
-	if s, err := bd.NewStream(ctx, lh.ID(), c07Names[5]); err != nil {
-		out.Cover("probe.blank.listener_scope_refuses.open_failed")
-	} else {
-		ok, lp := use(s)
-		if ok {
-			out.Cover("probe.blank.listener_scope_refuses.handler_ran")
-			if lp != 5 {
-				out.Cover("probe.blank.listener_scope_refuses.listener_stream_reports_no_protocol")
-			}
-			in, _ := stat(rmL, 5)
-			if in == 0 {
-				out.Cover("probe.blank.listener_scope_refuses.listener_scope_not_charged")
-			}
+	var lines [][]int64
+	// one case line per situation, in the wire format of Spec.v (kind 3 = blank hosts):
+	//   SetStreamHandler(p) on the listener; one open for [p]
+	run := func(name string, p int64) {
+		out.Cover("probe.blank." + name + ".runs")
+		bl.SetStreamHandler(c07Names[p], h)
+		line := []int64{7, 3, 1, c07U}
+		line = append(line, limD...)
+		line = append(line, limL...)
+		line = append(line, 1, p, 1, p)
+		line = append(line, 5, 1, 0, 1, p)
+		var res, dp, use, eh, lp int64 = 0, -1, -1, -1, -1
+		s, err := bd.NewStream(ctx, lh.ID(), c07Names[p])
+		if err != nil {
+			res = 1
+			out.Cover("probe.blank." + name + ".open_failed")
 		} else {
-			out.Cover("probe.blank.listener_scope_refuses.first_use_failed")
+			out.Cover("probe.blank." + name + ".stream_returned")
+			dp = c07Pid(s.Protocol())
+			var buf [9]byte
+			buf[8] = byte(p)
+			s.Write(buf[:])
+			var e [16]byte
+			s.SetReadDeadline(time.Now().Add(3 * time.Second))
+			if _, err := io.ReadFull(s, e[:]); err != nil {
+				use = 0
+				out.Cover("probe.blank." + name + ".first_use_failed")
+			} else {
+				use, eh = 1, 0
+				lp = int64(int32(binary.BigEndian.Uint32(e[12:])))
+				out.Cover("probe.blank." + name + ".handler_ran")
+			}
 		}
-		s.Reset()
+		time.Sleep(20 * time.Millisecond)
+		var hreg, hl int64 = -1, -1
+		if ninv[p] > 0 {
+			hreg, hl = 0, hlp[p]
+		}
+		line = append(line, res, dp, use, eh, lp, ninv[p], hreg, hl, 0)
+		if ps, _ := bd.Peerstore().GetProtocols(lh.ID()); len(ps) > 0 && c07Pid(ps[0]) >= 0 {
+			line = append(line, 1, c07Pid(ps[0]))
+		} else {
+			line = append(line, 0)
+		}
+		sc := scope()
+		line = append(line, sc...)
+		if res == 0 && dp != p {
+			out.Cover("probe.blank." + name + ".dialer_stream_reports_no_protocol")
+		}
+		if use == 1 && lp != p {
+			out.Cover("probe.blank." + name + ".listener_stream_reports_no_protocol")
+		}
+		if use == 1 && (sc[p] == 0 || sc[c07U+p] == 0) {
+			out.Cover("probe.blank." + name + ".a_scope_not_charged")
+		}
+		if s != nil {
+			s.Reset()
+		}
+		bd.Peerstore().SetProtocols(lh.ID())
+		bl.RemoveStreamHandler(c07Names[p])
+		lines = append(lines, line)
 	}
-	// 2. the dialer's scope for /c07/b/1.0.0 refuses
-	out.Cover("probe.blank.dialer_scope_refuses.runs")
-	if s, err := bd.NewStream(ctx, lh.ID(), c07Names[6]); err != nil {
-		out.Cover("probe.blank.dialer_scope_refuses.open_failed")
-	} else {
-		out.Cover("probe.blank.dialer_scope_refuses.stream_returned")
-		if s.Protocol() == "" {
-			out.Cover("probe.blank.dialer_scope_refuses.dialer_stream_reports_no_protocol")
+	run("listener_scope_refuses", 5)
+	run("dialer_scope_refuses", 6)
+	var sb strings.Builder
+	for _, l := range lines {
+		for i, v := range l {
+			if i > 0 {
+				sb.WriteByte(' ')
+			}
+			sb.WriteString(strconv.FormatInt(v, 10))
 		}
-		if ok, lp := use(s); ok && lp == 6 {
-			out.Cover("probe.blank.dialer_scope_refuses.handler_ran_on_negotiated_protocol")
-		}
-		if _, o := stat(rmD, 6); o == 0 {
-			out.Cover("probe.blank.dialer_scope_refuses.dialer_scope_not_charged")
-		}
-		s.Reset()
+		sb.WriteByte('\n')
 	}
+	os.WriteFile(os.Getenv("VERIF_OUT")+".probe", []byte(sb.String()), 0o644)
 }
 
 // TestVerifC07Probes runs only the two probes (no cases).
